@@ -63,6 +63,23 @@ def trigger_documents(tier):
     for v in ("\u00b2", "\u2460", "\u0663", "+2", "-2", " 2 ", "2.0", "1e3", "0x10", "2" * 5000, "", "\u00bd", "\uff12", "1_0"):
         for key in ("colspan", "rowspan"):
             out.append(f'{{|\n|-\n| {key}="{v}" | a\n| b\n|-\n| c || d\n|}}\n')
+    # html lists with stray (non-item) children, runs of 1..5, before / between / after the items
+    strays = ["some", "<b>bold</b>", "text", "<i>it</i>", "[[link]]"]
+    for tag in ("ul", "ol"):
+        for k in range(1, 6):
+            run = " ".join(strays[:k])
+            out.append(f"<{tag}>{run}<li>a</li></{tag}>")
+            out.append(f"<{tag}><li>a</li>{run}<li>b</li></{tag}>")
+            out.append(f"<{tag}><li>a</li>{run}</{tag}>")
+            out.append(f"<{tag}>{run}</{tag}>")
+        out.append(f"<{tag}><{tag}>x y z<li>a</li></{tag}>p q r</{tag}>")
+    out.append("<dl>some <b>bold</b> text<dt>t</dt>more <i>x</i> y<dd>d</dd>tail a b</dl>")
+    # the scrolling style on every kind of element that can carry a style (the pass dissolves the element)
+    for el, inner in (("ul", "<li>a</li><li>b</li>"), ("ol", "<li>a</li><li>b</li>"), ("li", "a"), ("dl", "<dt>t</dt><dd>d</dd>"), ("dd", "d"), ("dt", "t"),
+                      ("div", "x"), ("blockquote", "x"), ("p", "x"), ("span", "x"), ("center", "x"), ("pre", "x"), ("caption", "x"), ("tr", "<td>x</td>"),
+                      ("td", "x"), ("th", "x"), ("h2", "x"), ("big", "x"), ("gallery", "\nImage:x.png|c\n")):
+        out.append(f"before <{el} {sc}>{inner}</{el}> after")
+        out.append(f"<ul><li>k<{el} {sc}>{inner}</{el}></li></ul> after")
     # attribute values that are numbers written in the wikitext
     out.append('intro\n\n{|\n|-\n| colspan="99999999999" | ' + ("word " * 600) + '\n| b\n| c\n|}\n')
     out.append('intro\n\n{|\n|-\n| colspan="3000000" | ' + ("word " * 1100) + '\n| b\n|}\n')
